@@ -1278,7 +1278,31 @@ impl<'a> BodyGen<'a> {
             }
             _ => {
                 // block with parameters (multi-value)
-                if self.feat().multi_value && !self.o.exec_subset {
+                if self.feat().multi_value && !self.o.exec_subset && self.r.gen_bool(0.35) {
+                    // an *empty* construct (or one holding only nops) whose block type is a function type that
+                    // probably nothing else in the module names: (t, p2) -> (t, p2) is the identity
+                    let p2 = *value_types(self.o).choose(self.r).unwrap();
+                    self.expr(t, depth + 1);
+                    self.expr(p2, depth + 1);
+                    let bt = self.block_type(&[t, p2], &[t, p2]);
+                    match self.r.gen_range(0..3) {
+                        0 => self.out.push(I::Block(bt)),
+                        1 => self.out.push(I::Loop(bt)),
+                        _ => {
+                            self.expr(T::I32, depth + 1);
+                            self.out.push(I::If(bt));
+                            if self.r.gen_bool(0.5) {
+                                self.out.push(I::Nop);
+                            }
+                            self.out.push(I::Else);
+                        }
+                    }
+                    if self.r.gen_bool(0.3) {
+                        self.out.push(I::Nop);
+                    }
+                    self.out.push(I::End);
+                    self.out.push(I::Drop);
+                } else if self.feat().multi_value && !self.o.exec_subset {
                     let p = *value_types(self.o).choose(self.r).unwrap();
                     self.expr(p, depth + 1);
                     let bt = self.block_type(&[p], &[t]);
